@@ -125,6 +125,10 @@ def run_real(sc, chooser, max_steps=2500):
             sched.name_obj(ao.locking_deque.deque, "dq")
             sched.name_obj(ao.locking_deque.locking_queue, "tok")
             sched.name_obj(ao.activeobject_task_event, "run")
+            if hasattr(ao, "posted_events_lock"):
+                # the lock around the tracked-source list: a scheduling point only when it has to wait, not a step of the models
+                ao.posted_events_lock = dsched.DLockQuiet()
+                sched.name_obj(ao.posted_events_lock, "trk")
             ao.start_at(s1)
             sched.name_obj(ao.fabric_task_event, "fab")
             ids = []
@@ -252,6 +256,8 @@ def modelled_steps(ar):
         if tid is None:
             continue
         if label == "begin" and not name.startswith("timer"):
+            continue
+        if label.startswith("trk."):
             continue
         en = sorted(set(t for t in (tid_of(n) for n in enabled) if t is not None))
         out.append((tid, real_label(name, label, result), en))
@@ -461,6 +467,10 @@ def run_handler_armed(spec, chooser, max_steps=2500):
             sched.name_obj(ao.locking_deque.deque, "dq")
             sched.name_obj(ao.locking_deque.locking_queue, "tok")
             sched.name_obj(ao.activeobject_task_event, "run")
+            if hasattr(ao, "posted_events_lock"):
+                # the lock around the tracked-source list: a scheduling point only when it has to wait, not a step of the models
+                ao.posted_events_lock = dsched.DLockQuiet()
+                sched.name_obj(ao.posted_events_lock, "trk")
             ao.start_at(s1)
             sched.name_obj(ao.fabric_task_event, "fab")
 
@@ -477,6 +487,22 @@ def run_handler_armed(spec, chooser, max_steps=2500):
                 if spec["own_stop"]:
                     sched.yield_point("call.post")
                     ao.post_fifo(Event(signal="STOPME"))
+                    for _ in range(spec.get("more", 0)):
+                        sched.yield_point("call.post")
+                        ao.post_fifo(Event(signal="ARM"))
+                    if spec.get("late_stop"):
+                        # the object stops itself; the program arms one more source on it and later calls stop() from outside
+                        for _ in range(spec["late_stop"]["pauses"]):
+                            sched.yield_point("call.pause")
+                        period, times, deferred, lifo = spec["late_stop"]["source"]
+                        sched.yield_point("call.timed")
+                        (ao.post_lifo if lifo else ao.post_fifo)(Event(signal="T98", payload=700000), period=period, times=times,
+                                                                   deferred=bool(deferred))
+                        for _ in range(spec["late_stop"]["pauses"]):
+                            sched.yield_point("call.pause")
+                        sched.yield_point("call.stop")
+                        ao.stop()
+                        res["stop_returned_at"] = len(sched.trace)
                 else:
                     sched.yield_point("call.stop")
                     ao.stop()
@@ -546,6 +572,54 @@ def armed_model_steps(spec, res):
     return out
 
 
+def own_model_steps(spec, res):
+    """the recorded schedule as macro steps of the Lean model `Conc.AOOwn` (0 = k, 1 = c, 1000 = surplus wake-up, 2+i = timer i):
+    K posts at its dq.append; the consumer tests the flag at run.is_set, takes its step at dq.popleft; inside the HALT handler:
+    run.clear, dq.append (STOP), one source lock per cancel, and the handler's return"""
+    out = []
+    nk = 0
+    narms = len(spec["arms"])
+    cstate = "check"
+    at = res.get("own_stop_returned_at")
+    for idx, e in enumerate(res["trace"]):
+        if at is not None and idx == at and cstate == "handler":
+            out.append(1)                   # hCancel [] -> check: the handler returns
+            cstate = "check"
+        name, label = e[0], e[1]
+        if name == "K0":
+            if label == "dq.append":
+                if nk == narms:
+                    out.append(0)           # post 0 -> halt
+                nk += 1
+                out.append(0)
+        elif name == "C":
+            if cstate == "handler":
+                if label in ("dq.append", "DLock.acquire"):
+                    out.append(1)
+            elif label == "run.is_set":
+                if cstate == "check":
+                    out.append(1)
+                    cstate = "wait" if e[2] else "fin"
+            elif label == "dq.len" and cstate == "wait" and e[2] == 0:
+                out.append(1000)
+                cstate = "check"
+            elif label == "dq.popleft":
+                out.append(1)
+                cstate = "check"
+                if getattr(e[2], "signal_name", "") == "STOPME":
+                    out.append(1)           # hClear: the run flag is cleared before the handler's next primitive
+                    cstate = "handler"
+            elif label == "dq.peek" and getattr(e[2], "signal_name", "") == "STOP_ACTIVE_OBJECT_SIGNAL":
+                out.append(1)
+                cstate = "check"
+        elif name.startswith("timer") and label in ("dq.append", "dq.appendleft"):
+            out.append(2 + int(name[5:]))
+    if at is not None and at >= len(res["trace"]) and cstate == "handler":
+        out.append(1)
+    out.append(0)                           # more 0 -> done
+    return out
+
+
 def explore_handler_armed(run, n):
     """C12 stream: sources armed by a run-to-completion step that is in progress / still queued when stop() is called.
     Tied runs (fifo sources with distinct names, stop() from another thread) are replayed on the Lean model `Conc.AOArm`
@@ -553,17 +627,22 @@ def explore_handler_armed(run, n):
     the implementation-side oracle only"""
     rng = run.rng
     tied_done = []
+    own_done = []
     for _ in range(n):
         tied = rng.random() < 0.6
         narms = rng.randint(1, 3)
         if tied:
             spec = {"arms": [(rng.randint(1, 3), rng.choice([0, 0, 1, 2, 3]), int(rng.random() < 0.7), 0, k) for k in range(narms)],
-                    "client_timed": [], "pauses": rng.choice([0, 0, 1, 2, 4]), "own_stop": False, "tied": True}
+                    "client_timed": [], "pauses": rng.choice([0, 0, 1, 2, 4]), "own_stop": rng.random() < 0.4, "tied": True}
+            if spec["own_stop"]:
+                spec["more"] = rng.choice([0, 1, 2])
         else:
             spec = {"arms": [(rng.randint(1, 3), rng.choice([0, 0, 2, 3]), int(rng.random() < 0.7), int(rng.random() < 0.3), rng.randrange(2))
                              for _ in range(narms)],
                     "client_timed": [(rng.randint(1, 3), rng.choice([0, 2]), 1, 0)] if rng.random() < 0.4 else [],
                     "pauses": rng.choice([0, 0, 1, 2, 4]), "own_stop": rng.random() < 0.3, "tied": False}
+            if spec["own_stop"] and rng.random() < 0.6:
+                spec["late_stop"] = {"pauses": rng.choice([0, 1, 3, 8, 20]), "source": (rng.randint(1, 2), rng.choice([0, 0, 3]), int(rng.random() < 0.5), 0)}
         seed = rng.randrange(1 << 30)
         r2 = random.Random(seed)
         if r2.random() < 0.5:
@@ -608,6 +687,31 @@ def explore_handler_armed(run, n):
                 later = [nm for nm, i in res["steps"] if i > at]
                 if later:
                     run.violate("C12/step-after-own-stop", "steps %s ran after the step whose handler called stop()" % later, cj)
+                after = set(t["name"] for t in res["timers"] if t["signal"] == "T98")       # armed by the client after the object stopped itself
+                late = [e for e in trace[at:] if e[0].startswith("timer") and e[1] in ("dq.append", "dq.appendleft") and e[0] not in after]
+                if late:
+                    run.violate("C12/post-after-stop-returned", "%s placed an event in the queue after the stop() called from a handler "
+                                "had returned" % late[0][0], cj)
+                live = [t["name"] for t in res["timers"] if t["flag"] and t["name"] not in after]
+                if live:
+                    run.violate("C12/source-not-cancelled", "timed sources %s still have their run flag set after the stop() called "
+                                "from a handler returned" % live, cj)
+                if tied and res["outcome"] != "bound":
+                    own_done.append((spec, res, cj))
+            done = res.get("stop_returned_at")
+            if spec.get("late_stop") and done is not None:
+                run.count("handler-armed stream: stop() from a handler, then a source armed and stop() called from outside (%s)"
+                          % ("thread had ended" if at is not None and at < done else "thread still running"))
+                late2 = [e for e in trace[done:] if e[0].startswith("timer") and e[1] in ("dq.append", "dq.appendleft")]
+                if late2:
+                    run.violate("C12/post-after-stop-returned", "the object had stopped itself from a handler; a source armed afterwards posted (%s) "
+                                "after the stop() called from outside had returned" % late2[0][0], cj)
+                live2 = [t["name"] for t in res["timers"] if t["flag"]]
+                if live2:
+                    run.violate("C12/source-not-cancelled", "the object had stopped itself from a handler; after a later stop() from outside returned "
+                                "the timed sources %s still have their run flag set" % live2, cj)
+            elif spec.get("late_stop") and res["outcome"] == "quiescent" and not res["finished"].get("K0"):
+                run.violate("C12/stop-never-returns", "stop() called from outside on an object that had stopped itself did not return", cj)
         run.case(cj, nontrivial=True)
     lines = []
     for spec, res, cj in tied_done:
@@ -632,6 +736,31 @@ def explore_handler_armed(run, n):
             "fin" if res["finished"].get("C") else "alive", res["run_flag"], q, ";".join(srcs), sum(1 for _, i in res["steps"] if i >= done))
         if out.strip() != real:
             run.disagree("stop() racing handlers that arm timed sources (lock granularity)", cj, "model: %s\nreal:  %s" % (out.strip(), real), None)
+    lines = []
+    for spec, res, cj in own_done:
+        st = own_model_steps(spec, res)
+        toks = ["aoown", 9, 9, 500, len(spec["arms"])]
+        for a in spec["arms"]:
+            toks += [a[1], a[4]]
+        toks += [len(spec["arms"]), spec.get("more", 0), len(st)] + st
+        lines.append(" ".join(str(t) for t in toks))
+    outs = leanrun.run_driver(lines) if lines else []
+    for (spec, res, cj), out in zip(own_done, outs):
+        run.traces_validated += 1
+        run.count("handler-armed stream: stop() from a handler replayed on the model (aoown)")
+        at = res["own_stop_returned_at"]
+        trace = res["trace"]
+        srcs = []
+        for k, t in enumerate(res["timers"]):
+            posts = [i for i, e in enumerate(trace) if e[0] == t["name"] and e[1] in ("dq.append", "dq.appendleft")]
+            srcs.append("%d%d:%s:%d:%d" % (t["flag"], t["tracked"], t["signal"][1:], len(posts), sum(1 for i in posts if i >= at)))
+        names = [t["signal"] for t in res["timers"]]
+        q = ",".join("a" if x == "ARM" else "h" if x == "STOPME" else "s" if x == "STOP_ACTIVE_OBJECT_SIGNAL" else "t" + str(names.index(x))
+                     for x in res["queue"])
+        real = "c=%s k=done run=%d q=%s srcs=%s haltDone=1 stepsAfterHalt=%d blocked=0" % (
+            "fin" if res["finished"].get("C") else "alive", res["run_flag"], q, ";".join(srcs), sum(1 for _, i in res["steps"] if i > at))
+        if out.strip() != real:
+            run.disagree("stop() called from a handler (lock granularity)", cj, "model: %s\nreal:  %s" % (out.strip(), real), None)
 
 
 def _basic_chart(log, on_entry=None):
@@ -669,6 +798,10 @@ def run_fabric_stop(spec, chooser, max_steps=3000):
             sched.name_obj(ao.locking_deque.deque, "dq")
             sched.name_obj(ao.locking_deque.locking_queue, "tok")
             sched.name_obj(ao.activeobject_task_event, "run")
+            if hasattr(ao, "posted_events_lock"):
+                # the lock around the tracked-source list: a scheduling point only when it has to wait, not a step of the models
+                ao.posted_events_lock = dsched.DLockQuiet()
+                sched.name_obj(ao.posted_events_lock, "trk")
             chart = _basic_chart(res["log"])
             if live:
                 chart = mhsm.spy_on(chart)
@@ -763,6 +896,10 @@ def run_prestart(spec, chooser, max_steps=3000):
             sched.name_obj(ao.locking_deque.deque, "dq")
             sched.name_obj(ao.locking_deque.locking_queue, "tok")
             sched.name_obj(ao.activeobject_task_event, "run")
+            if hasattr(ao, "posted_events_lock"):
+                # the lock around the tracked-source list: a scheduling point only when it has to wait, not a step of the models
+                ao.posted_events_lock = dsched.DLockQuiet()
+                sched.name_obj(ao.posted_events_lock, "trk")
 
             def arm(chart):
                 f = chart.post_lifo if spec["lifo"] else chart.post_fifo
@@ -812,11 +949,19 @@ def explore_prestart(run, n):
             # any period a caller may pass, not only whole ticks; the clock moves only when nothing else can run: exact instants
             spec["period"] = rng.choice([0.25, 0.5, 1, 1.25, 1.5, 2, 2.5, 3.75])
             bias = 0.0
+        big = _ < max(2, n // 25)
+        if big:
+            # repeat counts well beyond the handful a test would wait for
+            spec.update({"where": "started", "period": rng.choice([0.25, 0.5]), "times": rng.choice([255, 256, 257, 258, 300, 513]),
+                         "deferred": int(rng.random() < 0.5)})
+            spec["horizon"] = spec["times"] * spec["period"] + 4
+            bias = 0.0
+            run.count("timed source with a large repeat count")
         seed = rng.randrange(1 << 30)
         r2 = random.Random(seed)
         base = dsched.random_chooser(r2, clock_bias=bias)
-        res = run_prestart(spec, base)
-        cj = {"what": "prestart", "spec": spec, "seed": seed, "schedule": [e[0] for e in res["trace"]]}
+        res = run_prestart(spec, base, max_steps=(30000 if big else 3000))
+        cj = {"what": "prestart", "spec": spec, "seed": seed, "schedule": [e[0] for e in res["trace"]] if not big else []}
         run.count("timed source armed %s" % ("in the start state's ENTRY handler" if spec["where"] == "entry" else "on the unstarted object"))
         run.traces_validated += 1
         if res["errors"]:
@@ -827,9 +972,10 @@ def explore_prestart(run, n):
             expect = [t0 + k * p for k in range(n_t if n_t else 1000) if t0 + k * p < res["now"] - 1e-9]
             run.count("period %s: instants checked" % p)
             if [round(x, 6) for x in got[:len(expect)]] != [round(x, 6) for x in expect] or (n_t and len(got) > n_t):
-                run.violate("C10/instants", "a source with period %s, times %d, deferred %s armed at %s posted at %s, expected %s… (virtual time, "
-                            "the clock advances only when no thread can run)" % (p, n_t, bool(spec["deferred"]), res["armed_at"],
-                                                                                  [round(x, 3) for x in got[:8]], [round(x, 3) for x in expect[:8]]), cj)
+                run.violate("C10/instants", "a source with period %s, times %d, deferred %s armed at %s posted %d times at %s…, expected %d posts at "
+                            "%s… (virtual time, the clock advances only when no thread can run)"
+                            % (p, n_t, bool(spec["deferred"]), res["armed_at"], len(got), [round(x, 3) for x in got[:6]], len(expect),
+                               [round(x, 3) for x in expect[:6]]), cj)
         if n_t and len(got) > n_t:
             run.violate("C10/too-many-posts", "a source armed before the thread started (times=%d) posted %d times" % (n_t, len(got)), cj)
         if res["outcome"] in ("stopped", "quiescent"):
@@ -844,14 +990,224 @@ def explore_prestart(run, n):
         run.case(cj, nontrivial=True)
 
 
+def run_subclass_capacity(spec, chooser, max_steps=6000):
+    """an ActiveObject subclass that raises QUEUE_SIZE above the base class's value, filled with timed sources up to ITS capacity"""
+    res = {"errors": []}
+    saved_pp = mao.pp
+    saved_cap = mhsm.HsmWithQueues.QUEUE_SIZE
+    mao.pp = lambda x: None
+    with dsched.Installed():
+        def stop_when(s):
+            k = [t for t in s.threads if t.name == "K0"]
+            return bool(k) and k[0].finished
+        sched = dsched.Sched(chooser, max_steps=max_steps, yield_filter=yield_filter)
+        dsched.Sched.current = sched
+        try:
+            mhsm.HsmWithQueues.QUEUE_SIZE = spec["base"]
+
+            class Roomy(mao.ActiveObject):
+                QUEUE_SIZE = spec["base"] + spec["extra"]
+            ao = Roomy(name="C")
+            got = []
+
+            def s1(chart, e):
+                if e.signal_name[0] == "T":
+                    got.append(e.signal_name)
+                    return return_status.HANDLED
+                if e.signal in (signals.ENTRY_SIGNAL, signals.INIT_SIGNAL, signals.EXIT_SIGNAL):
+                    return return_status.HANDLED
+                chart.temp.fun = chart.top
+                return return_status.SUPER
+            ao.start_at(s1)
+
+            def client():
+                sched.yield_point("call.begin")
+                cap = Roomy.QUEUE_SIZE
+                ids = []
+                for k in range(cap):
+                    ids.append(ao.post_fifo(Event(signal="T%d" % k), period=spec["period"], times=0, deferred=True))
+                res["tracked_full"] = len(ao.posted_events_queue)
+                try:
+                    ao.post_fifo(Event(signal="TX"), period=1, times=1, deferred=False)
+                    res["extra"] = "accepted"
+                except mao.ActiveObjectOutOfPostedEventResources:
+                    res["extra"] = "rejected"
+                mao.time.sleep(2)
+                res["extra_fired"] = "TX" in got
+                # cancel the OLDEST source by an equal id, the second oldest by name
+                import uuid as _u
+                the_id = ids[0]
+                ao.cancel_event(_u.UUID(str(the_id)) if isinstance(the_id, _u.UUID) else the_id)
+                ao.cancel_events(Event(signal="T1"))
+                del got[:]
+                mao.time.sleep(spec["period"] + 1)
+                res["after_cancel"] = sorted(set(got))
+                res["tracked_after"] = len(ao.posted_events_queue)
+                ao.stop()
+                del got[:]
+                mao.time.sleep(spec["period"] + 1)
+                res["after_stop"] = sorted(set(got))
+            sched.spawn(client, (), name="K0")
+            res["outcome"] = sched.run(stop_when=stop_when)
+            res["trace"] = sched.trace
+            for t in sched.threads:
+                if t.error is not None:
+                    res["errors"].append("%s: %s: %s" % (t.name, type(t.error).__name__, t.error))
+            res["live_flags"] = [t.args[0].event.signal_name for t in sched.threads if t.name.startswith("timer")
+                                 and t.args[0].task_run_event._flag]
+        finally:
+            leaked = sched.shutdown()
+            mhsm.HsmWithQueues.QUEUE_SIZE = saved_cap
+            mao.pp = saved_pp
+            if leaked:
+                res["errors"].append("leaked: %s" % leaked)
+    return res
+
+
+def explore_subclass_capacity(run, focus, n):
+    """C11 / C31 / C12 on an ActiveObject subclass whose QUEUE_SIZE is larger than the base class's (oracle only): it can track its
+    own QUEUE_SIZE sources, the next timed post is rejected and never fires, the oldest source can still be cancelled by id or
+    by name, stop() cancels them all"""
+    rng = run.rng
+    for _ in range(n):
+        # (extra <= 2: the cap - 2 sources left after the cancels may all fire at one instant into an event queue of `base` places)
+        spec = {"base": rng.randint(1, 4), "extra": rng.randint(1, 2), "period": rng.choice([3, 5])}
+        seed = rng.randrange(1 << 30)
+        res = run_subclass_capacity(spec, dsched.random_chooser(random.Random(seed), clock_bias=0.0))
+        cj = {"what": "subclass-capacity", "spec": spec, "seed": seed, "schedule": [e[0] for e in res.get("trace", [])]}
+        cap = spec["base"] + spec["extra"]
+        run.count("subclass with QUEUE_SIZE above the base class's")
+        run.traces_validated += 1
+        if res["errors"]:
+            run.violate("%s/thread-error" % focus, "a thread died: %s" % res["errors"][:2], cj)
+        elif res.get("outcome") == "bound" or "after_stop" not in res:
+            pass
+        else:
+            if res["tracked_full"] != cap:
+                run.violate("%s/accepted-source-not-tracked" % focus, "a subclass with QUEUE_SIZE = %d (base class: %d) accepted %d timed "
+                            "sources and tracks %d of them" % (cap, spec["base"], cap, res["tracked_full"]), cj)
+            if res["extra"] != "rejected" or res["extra_fired"]:
+                run.violate("%s/post-beyond-capacity" % focus, "with QUEUE_SIZE = %d sources tracked (base class: %d) one more timed post was %s%s"
+                            % (cap, spec["base"], res["extra"], " and its event was dispatched" if res["extra_fired"] else ""), cj)
+            late = [x for x in res["after_cancel"] if x in ("T0", "T1")]
+            if late:
+                run.violate("%s/cancelled-source-still-posts" % focus, "subclass with QUEUE_SIZE = %d (base class: %d): the sources %s, cancelled by id / "
+                            "by name, posted again after the cancel calls returned" % (cap, spec["base"], late), cj)
+            missing = [x for x in ("T%d" % k for k in range(2, cap)) if x not in res["after_cancel"]]
+            if missing:
+                run.violate("%s/other-source-stopped" % focus, "after cancelling T0 and T1 the sources %s no longer post" % missing, cj)
+            if res["after_stop"] or res["live_flags"]:
+                run.violate("%s/source-survives-stop" % focus, "subclass with QUEUE_SIZE = %d (base class: %d): after stop() returned the sources %s "
+                            "posted / still have their run flag set: %s" % (cap, spec["base"], res["after_stop"], res["live_flags"]), cj)
+        run.case(cj, nontrivial=True)
+
+
+def run_timed_placement(spec, chooser, max_steps=3000):
+    """events pending in the queue of an active object whose thread is not running yet, timed sources (fifo / lifo) firing on top"""
+    res = {"errors": []}
+    saved_pp = mao.pp
+    mao.pp = lambda x: None
+    with dsched.Installed():
+        def stop_when(s):
+            k = [t for t in s.threads if t.name == "K0"]
+            return bool(k) and k[0].finished
+        sched = dsched.Sched(chooser, max_steps=max_steps, yield_filter=yield_filter)
+        dsched.Sched.current = sched
+        try:
+            ao = mao.ActiveObject(name="C")
+            sched.name_obj(ao.locking_deque.deque, "dq")
+            sched.name_obj(ao.locking_deque.locking_queue, "tok")
+            sched.name_obj(ao.activeobject_task_event, "run")
+            if hasattr(ao, "posted_events_lock"):
+                # the lock around the tracked-source list: a scheduling point only when it has to wait, not a step of the models
+                ao.posted_events_lock = dsched.DLockQuiet()
+                sched.name_obj(ao.posted_events_lock, "trk")
+
+            def client():
+                sched.yield_point("call.begin")
+                for k in range(spec["pending"]):
+                    (ao.post_lifo if spec["pending_lifo"] else ao.post_fifo)(Event(signal="P%d" % k))
+                for k, (lifo, period, times, deferred) in enumerate(spec["sources"]):
+                    (ao.post_lifo if lifo else ao.post_fifo)(Event(signal="T%d" % k), period=period, times=times, deferred=bool(deferred))
+                mao.time.sleep(spec["sleep"])
+                res["queue"] = [e.signal_name for e in ao.locking_deque.deque.raw()]
+                for k in range(len(spec["sources"])):
+                    ao.cancel_events(Event(signal="T%d" % k))
+            sched.spawn(client, (), name="K0")
+            res["outcome"] = sched.run(stop_when=stop_when)
+            res["trace"] = sched.trace
+            for t in sched.threads:
+                if t.error is not None:
+                    res["errors"].append("%s: %s: %s" % (t.name, type(t.error).__name__, t.error))
+            # the order in which the timer threads placed their events (whatever end they used)
+            res["post_order"] = [int(e[0][5:]) for e in sched.trace if e[0].startswith("timer") and e[1] in ("dq.append", "dq.appendleft")
+                                 and e[4] < spec["sleep"] + 1e-9] if all(len(e) > 4 for e in sched.trace if e[0].startswith("timer")) else None
+        finally:
+            leaked = sched.shutdown()
+            mao.pp = saved_pp
+            if leaked:
+                res["errors"].append("leaked: %s" % leaked)
+    return res
+
+
+def explore_timed_placement(run, focus, n):
+    """where a timed source's posts land when other events are pending (oracle only): an object that is not started yet holds
+    `pending` events; each fifo source's events must be behind them, each lifo source's events in front of everything that was
+    in the queue when it fired"""
+    rng = run.rng
+    for _ in range(n):
+        nsrc = rng.randint(1, 2)
+        spec = {"pending": rng.randint(1, 3), "pending_lifo": int(rng.random() < 0.3),
+                "sources": [(int(rng.random() < 0.6), rng.choice([1, 2]), rng.choice([1, 1, 2]), int(rng.random() < 0.5)) for _ in range(nsrc)],
+                "sleep": 7}
+        seed = rng.randrange(1 << 30)
+        res = run_timed_placement(spec, dsched.random_chooser(random.Random(seed), clock_bias=0.0))
+        cj = {"what": "timed-placement", "spec": spec, "seed": seed, "schedule": [e[0] for e in res.get("trace", [])]}
+        run.count("timed %s source(s) firing onto %d pending event(s)" % ("+".join("lifo" if s[0] else "fifo" for s in spec["sources"]), spec["pending"]))
+        run.traces_validated += 1
+        if res["errors"]:
+            run.violate("%s/thread-error" % focus, "a thread died: %s" % res["errors"][:2], cj)
+            run.case(cj, nontrivial=True)
+            continue
+        q = res.get("queue")
+        order = res.get("post_order")
+        if q is None or order is None:
+            run.case(cj, nontrivial=False)
+            continue
+        pend = ["P%d" % k for k in range(spec["pending"])]
+        if spec["pending_lifo"]:
+            pend.reverse()
+        want = list(pend)
+        for k in order:
+            if spec["sources"][k][0]:
+                want.insert(0, "T%d" % k)
+            else:
+                want.append("T%d" % k)
+        counts_ok = sorted(x for x in q if x[0] == "T") == sorted(x for x in want if x[0] == "T")
+        if counts_ok and q != want:
+            kinds = {("T%d" % k): ("lifo" if s[0] else "fifo") for k, s in enumerate(spec["sources"])}
+            run.violate("%s/timed-post-placement" % focus, "an object not started yet held %s; timed sources %s fired in the order %s; the queue is %s, "
+                        "a double-ended queue (fifo = back, lifo = front) gives %s" % (pend, kinds, ["T%d" % k for k in order], q, want), cj)
+        run.case(cj, nontrivial=True)
+
+
 def replay(case):
     cc = case.get("case", case)
+    if cc.get("what") == "subclass-capacity":
+        res = run_subclass_capacity(cc["spec"], dsched.scripted_chooser(cc["schedule"], then=dsched.round_robin_chooser()))
+        print({k: v for k, v in res.items() if k != "trace"})
+        return 0
+    if cc.get("what") == "timed-placement":
+        res = run_timed_placement(cc["spec"], dsched.scripted_chooser(cc["schedule"], then=dsched.round_robin_chooser()))
+        print({k: v for k, v in res.items() if k != "trace"})
+        return 0
     if cc.get("what") == "fabric-stop":
         res = run_fabric_stop(cc["spec"], dsched.scripted_chooser(cc["schedule"], then=dsched.round_robin_chooser()))
         print({k: v for k, v in res.items() if k != "trace"})
         return 0
     if cc.get("what") == "prestart":
-        res = run_prestart(cc["spec"], dsched.scripted_chooser(cc["schedule"], then=dsched.round_robin_chooser()))
+        res = run_prestart(cc["spec"], dsched.scripted_chooser(cc["schedule"], then=dsched.round_robin_chooser()),
+                           max_steps=30000 if cc["spec"]["times"] > 100 else 3000)
         print({k: v for k, v in res.items() if k != "trace"})
         return 0
     if cc.get("what") == "handler-armed":
